@@ -139,6 +139,35 @@ def run(ctx):
         else:
             H.violation("monkeytype.tracing:CallTracer.__call__", "custom-filter:%s:%s" % (sorted(accept), sorted(logged)), "logged functions differ from the functions the filter accepts",
                         {"accepted": sorted(accept)}, sorted(logged), sorted(want))
+    # twin functions (equal code objects) in two files, custom filter admitting only one of them, both call orders
+    H.section("custom filter on twin functions", "the same function text at the same line in two files; the filter admits one file only; both orders of calling them", "2 orders")
+    tdir = tempfile.mkdtemp(prefix="c17_twin_")
+    try:
+        for sub in ("alpha", "beta"):
+            os.makedirs(os.path.join(tdir, sub))
+            with open(os.path.join(tdir, sub, "handler.py"), "w") as fh:
+                fh.write("def handle(x):\n    return x\n")
+        def load(sub):
+            g = {}
+            p_ = os.path.join(tdir, sub, "handler.py")
+            exec(compile(open(p_).read(), p_, "exec"), g)
+            return g["handle"]
+        for order in (("alpha", "beta"), ("beta", "alpha")):
+            fa, fb = load("alpha"), load("beta")
+            fns = {"alpha": fa, "beta": fb}
+            col = Collector()
+            with trace_calls(col, 0, lambda code: os.sep + "alpha" + os.sep in code.co_filename, None):
+                for name in order:
+                    fns[name](1)
+            files = sorted(t.func.__code__.co_filename.split(os.sep)[-2] for t in col.traces)
+            if files == ["alpha"]:
+                H.ok("twins:%s" % (order,), sample={"order": order, "logged": files})
+            else:
+                H.violation("monkeytype.tracing:CallTracer.__call__", "twin-filter:%s:%s" % (order, files), "a custom filter's verdict is not applied per call: equal code objects in different files are conflated",
+                            {"order": list(order)}, files, ["alpha"])
+    finally:
+        import shutil
+        shutil.rmtree(tdir, ignore_errors=True)
     # __main__ is never stored
     H.section("__main__", "traces of functions whose module is __main__ never reach the store", "2 functions")
     st = MemStore()
